@@ -949,6 +949,25 @@ def _adjacent_token(obj: Any, side: str) -> Any:
     return t
 
 
+def _adjacent_over_placeholders(obj: Any, side: str) -> Any:
+    """The token one single newline away from the model's first / last token with nothing but field
+    placeholders in between.  (Dedent and end-of-line marks of a neighbouring block are structure, not
+    layout: a comment behind them is not "directly" above or below, and such cases are not judged.)"""
+    st = obj.token_store
+    if st is None:
+        return None
+    succ = st.get_prev if side == 'leading' else st.get_next
+    t = succ(obj.first_token if side == 'leading' else obj.last_token)
+    while isinstance(t, I.internal.Placeholder):
+        t = succ(t)
+    if not isinstance(t, models.Newline) or t.raw_text.count('\n') != 1:
+        return None
+    t = succ(t)
+    while isinstance(t, I.internal.Placeholder):
+        t = succ(t)
+    return t
+
+
 def _claimable_layout(obj: Any, comment: Any, side: str) -> bool:
     return comment is not None and _adjacent_token(obj, side) is comment
 
@@ -1027,7 +1046,7 @@ def exec_claim(sess: Session, op: dict, step: int) -> Effect:
             if how.startswith('claim'):
                 cand = None
                 if getattr(obj, f'raw_{side}_comment') is None:
-                    cand = _adjacent_token(obj, side)
+                    cand = _adjacent_over_placeholders(obj, side)
                     own = getattr(obj, 'indent', '')
                     if not isinstance(cand, BlockComment) or cand.claimed or bool(cand.indent) != bool(own if isinstance(own, str) else ''):
                         cand = None
